@@ -1188,6 +1188,13 @@ class VF:
 
         res = self.run_loop_body(ls, one)
         ls.result = res
+        if kind == 'for' and not self.disc_mode and getattr(ls, 'result_term', None) is None:
+            # `for x in xs { v.push(f(x)) }` into an empty Vec builds the same collection as xs.map(f).collect(): record the
+            # element so that rules about per-element construction see one shape
+            accs = [k_ for k_ in ls.lh if T.is_app(ls.next.get(k_), 'push') and ls.next[k_][2][0] is ls.lh[k_] and ls.init.get(k_) is T.app('array')]
+            if len(accs) == 1 and not ls.exits:
+                ls.result_term = ls.next[accs[0]][2][1]
+                ls.collect_key = accs[0]
         self.close_accumulators(ls)
         return T.UNIT
 
